@@ -43,10 +43,11 @@ def seg(rng, cls, ivals, fvals):
         return "C%s,S,%s" % (h(sp), h(rng.choice(STRS)))
     if cls == "ptr": return "C%s,P,1" % h("%p")
     if cls == "show":
-        k = rng.choice("IFS")
+        k = rng.choice("IFSN")
+        if k == "N": return "WN,%d" % rng.randint(-9, 99)          # a type without a Show instance (generic fallback text)
         return "W%s,%s" % (k, str(rng.choice(ivals)) if k == "I" else ("%016x" % rng.choice(fvals)) if k == "F" else h(rng.choice(STRS)))
     if cls == "showc":
-        k = rng.choice("ALTUD")
+        k = rng.choice("ALTUDX")
         n = rng.choice([0, 1, 3]) * (2 if k == "T" else 1)
         if k == "T":          # keys include ones whose home is the last slot of a 5-, 11-, 23- or 53-slot table, and colliding ones
             n = rng.choice([0, 1, 3, 4, 6])
